@@ -1117,6 +1117,10 @@ class Step(Node):
 
         Only a source can be detached without this step: a product is selected by its creator,
         and an output is created by this step and only ever detached together with it.
+        The one exception is a sink edge to a former output, which survives when the step is
+        created again under the same label with other outputs (`Trellis.create` cuts sources,
+        not sinks). That file no longer has this step as its creator,
+        so for a detached step only the sinks it created are yielded.
 
         Parameters
         ----------
@@ -1164,8 +1168,15 @@ class Step(Node):
         where = "WHERE kind = 'file'"
 
         # Exclude paths detached without this step (see above).
-        if not (raw or self.is_detached()):
-            where += " AND NOT detached"
+        if not raw:
+            if not self.is_detached():
+                where += " AND NOT detached"
+            elif relation == "sink":
+                # `Trellis.create` keeps the sink edges of a step it re-creates under the same
+                # label, while it orphans the old outputs (creator NULL).
+                # Such an edge is invisible as long as this step is attached,
+                # and must not come back as an output when the step is detached again.
+                where += " AND node.creator = :node"
 
         # Restrict to dynamic or to initial (non-dynamic) files.
         if dynamic is not None:
